@@ -2,6 +2,7 @@ package c09
 
 import (
 	"encoding/hex"
+	"regexp"
 	"strconv"
 	"strings"
 	"testing"
@@ -87,8 +88,20 @@ func genRead(rt *rapid.T) (c ReadCase) {
 // reader fault can be an allocation that ends the process.
 var readRunner = &runner{}
 
+// slowLongFloat: a long float literal with an exponent of six and more digits. Reading it is quick, but anything that
+// prints it (an error message that shows the enclosing list, for instance) needs math/big to produce millions of digits:
+// (write-to-string 7L12345678) takes 30 s, 1L46666600 many minutes. That is slow and bounded, not a hang, so such texts
+// are not given to the reader here (counted as class read-slow-long-float).
+var slowLongFloat = regexp.MustCompile(`[0-9.][lL][+-]?[0-9]{6,}`)
+
 func runRead(c ReadCase) *h.Result {
 	res := &h.Result{Evals: len(c.Texts)}
+	for _, b := range c.Texts {
+		if slowLongFloat.Match(b) {
+			res.Classes = append(res.Classes, "read-slow-long-float")
+			return res
+		}
+	}
 	calls := make([]Call, len(c.Texts))
 	for i, b := range c.Texts {
 		calls[i] = Call{Op: "read", Hex: hex.EncodeToString(b)}
